@@ -182,6 +182,11 @@ def _load_known(pid):
 
 
 def main():
+    if os.environ.get('PYTHONHASHSEED') != '0':
+        # the code under test iterates over sets of strings in places; a fixed hash seed makes every run and every
+        # replay visit them in the same order
+        os.environ['PYTHONHASHSEED'] = '0'
+        os.execv(sys.executable, [sys.executable, '-B'] + sys.argv)
     ap = argparse.ArgumentParser()
     ap.add_argument('pid')
     ap.add_argument('--tier', default=os.environ.get('VERIF_TIER', 'quick'), choices=['quick', 'thorough'])
